@@ -186,3 +186,66 @@ fn probe_chunk_counter_overflow_no_panic() {
         assert!(r.is_err() || r.unwrap() == 0);
     }
 }
+
+fn pfailsafe_read_all(stream: &[u8], mode: FailSafeReaderDecryptionMode) -> Vec<u8> {
+    let mut out = Vec::new();
+    if let Ok(mut r) = EncryptionLayerFailSafeReader::new(Box::new(RawLayerFailSafeReader::new(stream)), &pcfg(mode)) {
+        let mut b = vec![0u8; 70000];
+        loop {
+            match r.read(&mut b) {
+                Ok(0) => {
+                    // a reader that said "end" must keep saying so (sticky)
+                    for _ in 0..3 { assert_eq!(r.read(&mut b).unwrap_or(0), 0, "data returned after the reader reported end/failure"); }
+                    break;
+                }
+                Ok(n) => out.extend_from_slice(&b[..n]),
+                Err(_) => break,
+            }
+        }
+    }
+    out
+}
+
+/// fs.auth.sticky / enc.read.sticky_after_failure: authenticated repair uses nothing located after a failed chunk
+#[test]
+fn probe_failsafe_auth_sticky() {
+    let n = 2 * C + 500;
+    let mut s = penc(n);
+    // corrupt the tag of chunk 1
+    let tag1 = C + 16 + C;
+    s[tag1 + 3] ^= 0x40;
+    let out = pfailsafe_read_all(&s, FailSafeReaderDecryptionMode::OnlyAuthenticatedData);
+    assert!(out.len() <= C, "authenticated fail-safe read returned {} bytes although chunk 1 failed (only chunk 0 = {} bytes may be used)", out.len(), C);
+    assert_eq!(&out[..], &pdata(n)[..out.len()]);
+    // payload corruption of chunk 1 as well
+    let mut s = penc(n);
+    s[C + 16 + 77] ^= 1;
+    let out = pfailsafe_read_all(&s, FailSafeReaderDecryptionMode::OnlyAuthenticatedData);
+    assert!(out.len() <= C, "authenticated fail-safe read returned {} bytes although chunk 1 failed", out.len());
+}
+
+/// fs.new.first_chunk_verified (KNOWN FINDING witness): corruption inside chunk 0 is returned by the authenticated mode
+#[test]
+fn probe_failsafe_auth_first_chunk_verified() {
+    let n = C + 500;
+    let mut s = penc(n);
+    s[1000] ^= 0x01;
+    let out = pfailsafe_read_all(&s, FailSafeReaderDecryptionMode::OnlyAuthenticatedData);
+    let good = pdata(n);
+    assert!(out.len() <= n && out[..] == good[..out.len()],
+        "authenticated fail-safe read returned {} bytes that are not a prefix of the original (chunk 0 is not verified)", out.len());
+}
+
+/// fs.unauth superset: the authenticated result is a prefix of the unauthenticated one
+#[test]
+fn probe_failsafe_auth_prefix_of_unauth() {
+    for n in [100usize, C, C + 500, 2 * C + 7] {
+        let s = penc(n);
+        for cut in [s.len(), s.len() - 1, s.len() - 16, s.len() - 17, C + 16, C + 15, C, 50] {
+            if cut > s.len() { continue; }
+            let a = pfailsafe_read_all(&s[..cut], FailSafeReaderDecryptionMode::OnlyAuthenticatedData);
+            let u = pfailsafe_read_all(&s[..cut], FailSafeReaderDecryptionMode::DataEvenUnauthenticated);
+            assert!(a.len() <= u.len() && a[..] == u[..a.len()], "len {n} cut {cut}: authenticated output is not a prefix of the unauthenticated one");
+        }
+    }
+}
